@@ -57,6 +57,7 @@ func main() {
 	cov["signature_cache_forgeries"] = forged
 
 	// ---- part 1
+	triples = !r.Quick()
 	t0 := time.Now()
 	cross := map[string]crossEntry{}
 	var famRes []famResult
